@@ -182,6 +182,7 @@ def render(e, use_sugar=False):
     if t in ("and", "or"): return "(" + " ".join([t] + [r(x) for x in e["es"]]) + ")"
     if t in ("when", "unless"): return "(" + " ".join([t, r(e["c"])] + [r(x) for x in e["es"]]) + ")"
     if t == "define": return render_define(e["x"], e["e"], use_sugar)
+    if t == "rawtext": return e["text"]          # (C15 only: a form given as text)
     if t == "importfile": return "(import (%s))" % e["lib"]
     if t == "defsyntax": return "(define-syntax %s (syntax-rules () ((%s a) (list '%s))))" % (e["kw"], e["kw"], e["k"])
     if t == "macrouse": return "(cond (#t %s))" % r(e["arg"]) if e["kw"] == "cond" else "(%s %s)" % (e["kw"], r(e["arg"]))
